@@ -1048,8 +1048,10 @@ fn l_remove(cfg: &SCfg, j: usize) {
 // NOT instantiated: the TinyLFU admission path of handle_upsert (l_upsert_admission_*, s_upsert_new_full_unit / _toobig /
 // _two_victims), evict_lru_entries with two victims and evict_expired with removal at n = 2 exhaust 40 GB
 // (SmallVec spill paths + Arc drop glue on merged heaps); see DESIGN.md 12.
-sh!(l_upsert_admission_n1, l_upsert_admission(&sc(1, Some(1), false, W1, false, false, false, 1)));
-sh!(l_upsert_admission_n2, l_upsert_admission(&sc(2, Some(2), false, W1, true, false, false, 1)));
+// no verdict within 60 min / 40 GB (./check ALL): not instantiated
+// sh!(l_upsert_admission_n1, l_upsert_admission(&sc(1, Some(1), false, W1, false, false, false, 1)));
+// no verdict within 60 min / 40 GB (./check ALL): not instantiated
+// sh!(l_upsert_admission_n2, l_upsert_admission(&sc(2, Some(2), false, W1, true, false, false, 1)));
 sh!(l_upsert_admit_fits_unbounded, l_upsert_admit_fits(&sc(1, None, true, WT_A, true, false, false, 1)));
 sh!(l_upsert_admit_fits_cap, l_upsert_admit_fits(&sc(1, Some(1000), true, WT_A, false, false, false, 1)));
 sh!(l_evict_lru_exact_n2, l_evict_lru_exact(&sc(2, Some(5), true, WT_A, false, false, false, 1)));
@@ -1465,10 +1467,13 @@ use BOp::*;
 sh!(l_burst_ins1_cap1_cold, l_burst(&sc(1, Some(1), false, W1, false, false, false, 1), 1, 0, &[Ins(1, 0)]));
 sh!(l_burst_ins1_room, l_burst(&sc(1, Some(3), false, W1, false, false, false, 1), 1, 0, &[Ins(1, 0)]));
 // F7 shape: pending insert of a new key, invalidate of the resident, second insert of the new key
-sh!(l_burst_ins1_inv0_ins1_cap1, l_burst(&sc(1, Some(1), false, W1, false, false, false, 1), 1, 0, &[Ins(1, 0), Inv(0), Ins(1, 1)]));
+// no verdict within 60 min / 40 GB (./check ALL): not instantiated
+// sh!(l_burst_ins1_inv0_ins1_cap1, l_burst(&sc(1, Some(1), false, W1, false, false, false, 1), 1, 0, &[Ins(1, 0), Inv(0), Ins(1, 1)]));
 sh!(l_burst_ins1_ins1_cap1_cold, l_burst(&sc(1, Some(1), false, W1, false, false, false, 1), 1, 0, &[Ins(1, 0), Ins(1, 1)]));
-sh!(l_burst_ins1_ins1_cap1_hot, l_burst(&sc(1, Some(1), false, W1, false, false, false, 1), 2, 1, &[Ins(1, 0), Ins(1, 1)]));
-sh!(l_burst_ins1_inv1_ins1_room, l_burst(&sc(1, Some(3), false, W1, true, false, false, 1), 1, 0, &[Ins(1, 0), Inv(1), Ins(1, 1)]));
+// no verdict within 60 min / 40 GB (./check ALL): not instantiated
+// sh!(l_burst_ins1_ins1_cap1_hot, l_burst(&sc(1, Some(1), false, W1, false, false, false, 1), 2, 1, &[Ins(1, 0), Ins(1, 1)]));
+// no verdict within 60 min / 40 GB (./check ALL): not instantiated
+// sh!(l_burst_ins1_inv1_ins1_room, l_burst(&sc(1, Some(3), false, W1, true, false, false, 1), 1, 0, &[Ins(1, 0), Inv(1), Ins(1, 1)]));
 sh!(l_burst_upd0_inv0_room, l_burst(&sc(1, Some(3), false, W1, true, false, false, 1), 1, 0, &[Ins(0, 1), Inv(0)]));
 // a queued update of the resident that the admission of a hot newcomer picks as victim
 sh!(l_burst_ins1_upd0_cap1_hot, l_burst(&sc(1, Some(1), false, W1, false, false, false, 1), 2, 1, &[Ins(1, 0), Ins(0, 1)]));
@@ -1477,7 +1482,59 @@ sh!(l_burst_ins1_upd0_cap1_hot, l_burst(&sc(1, Some(1), false, W1, false, false,
 sh!(l_burst_shrink0_ins1_w_cap7_hot, l_burst(&sc(1, Some(7), true, WT_S, false, false, false, 1), 2, 1, &[Ins(0, 1), Ins(1, 0)]));
 // the admission scan meets the node of a resident that was invalidated AFTER the newcomer's insert (its Remove is queued behind)
 sh!(l_burst_ins1_inv0_cap1_hot, l_burst(&sc(1, Some(1), false, W1, false, false, false, 1), 2, 1, &[Ins(1, 0), Inv(0)]));
-sh!(l_burst_upd0_ins1_cap1_hot, l_burst(&sc(1, Some(1), false, W1, false, false, false, 1), 2, 1, &[Ins(0, 1), Ins(1, 0)]));
+// no verdict within 60 min / 40 GB (./check ALL): not instantiated
+// sh!(l_burst_upd0_ins1_cap1_hot, l_burst(&sc(1, Some(1), false, W1, false, false, false, 1), 2, 1, &[Ins(0, 1), Ins(1, 0)]));
+
+// ================================================================================================
+// C03 / C01 / C10 (the F7 scenario, step-wise: the whole burst l_burst_ins1_inv0_ins1_cap1 found the
+// defect but gives no verdict on the repaired tree within an hour). insert(b); invalidate(a); insert(b)
+// un-synced on a full cache of capacity 1. Applying the FIRST queued Upsert(b) -- a stale op: the map
+// already holds b's second value -- ends in a rejection (the only possible victim has left the map).
+// The rejection must not remove the newer value, whose own op is still queued.
+// ================================================================================================
+fn l_upsert_stale_reject(then_rest: bool) {
+    sketch_mode(1, 0);
+    let st = sbuild(&sc(1, Some(1), false, W1, false, false, false, 1));
+    let g = st.g;
+    let inner = &*st.b.inner;
+    let v1 = Val { cls: 0, data: kani::any() };
+    let v2 = Val { cls: 1, data: kani::any() };
+    let (op1, _) = st.b.do_insert_with_hash(Arc::new(1u8), IdH::h(1), v1);
+    if let WriteOp::Upsert { ref value_entry, .. } = op1 {
+        crate::common::concurrent::entry_info::verif_entry_info::register_w(value_entry.entry_info(), 1, false, false, 1);
+    }
+    let kv = st.b.remove_entry(&0u8).unwrap();                                   // invalidate(a)
+    let (op2, _) = st.b.do_insert_with_hash(Arc::new(1u8), IdH::h(1), v2);      // second insert(b)
+    let mut counters = EvictionCounters::new(g.ec, g.ws);
+    kani::cover!(true, "inputs chosen");
+    {
+        let mut deqs = inner.deques.lock().expect("lock poisoned");
+        let freq = inner.frequency_sketch.read().expect("lock poisoned");
+        if let WriteOp::Upsert { key_hash, value_entry, old_weight, new_weight } = op1 {
+            inner.handle_upsert(key_hash, value_entry, old_weight, new_weight, &mut deqs, &freq, &mut counters);
+        }
+        let cur = inner.cache.get(&1u8).map(|r| r.value().value);
+        chk!(cur == Some(v2), "C03,C01,C10: applying a STALE queued insert of a key removed (or replaced) the key's newer value, whose own write op is still queued");
+        if then_rest {
+            In::handle_remove(&mut deqs, kv.entry, &mut counters);
+            if let WriteOp::Upsert { key_hash, value_entry, old_weight, new_weight } = op2 {
+                inner.handle_upsert(key_hash, value_entry, old_weight, new_weight, &mut deqs, &freq, &mut counters);
+            }
+        } else {
+            std::mem::forget(kv); std::mem::forget(op2);
+        }
+    }
+    if then_rest {
+        inner.entry_count.store(counters.entry_count);
+        inner.weighted_size.store(counters.weighted_size);
+        let (cnt, _) = squiescent(inner, MAXN);
+        chk!(cnt == 1 && inner.cache.get(&1u8).map(|r| r.value().value) == Some(v2), "C03,C01: after the whole run the cache (capacity 1, the old resident invalidated) must hold b's latest value");
+    }
+    kani::cover!(true, "end reached");
+    std::mem::forget(st);
+}
+sh!(l_upsert_stale_reject_keeps_newer_value, l_upsert_stale_reject(false));
+sh!(l_upsert_stale_reject_then_rest_quiescent, l_upsert_stale_reject(true));
 
 // ================================================================================================
 // C10 / C04 / C03: admission over a victim that has a PENDING UPDATE. The resident (counted with
